@@ -47,6 +47,82 @@ seed_case(int role, int seeder_mode, int inject, int expect_ok, const char *name
 	tp_ep_free(&ep);
 }
 
+/* several resets of the SAME context: a refused reset must not wear the check
+ * out.  expect[i]: 1 must start, 0 must be refused, -1 recorded only */
+static void
+seed_sequence(int role, int n, const int *smode, const int *inject, const int *expect, const char *name)
+{
+	tp_ep ep;
+	tp_cfg c;
+	int i, r;
+	size_t l;
+	char what[240];
+	memset(&ep, 0, sizeof ep);
+	for (i = 0; i < n; i ++) {
+		tp_cfg_default(&c, role);
+		c.seeder_mode = smode[i];
+		c.inject_entropy = inject[i];
+		c.reuse_ctx = i > 0;
+		memset(c.seed, 0x36 + i, 32);
+		snprintf(tp_case, sizeof tp_case, "%s seeding-sequence=%s role=%d step=%d/%d seeder_mode=%d inject=%d",
+			mode_desc, name, role, i + 1, n, smode[i], inject[i]);
+		r = tp_ep_start(&ep, &c);
+		vf_stat("seed_sequence_resets", 1);
+		vf_distinct("seed_sequence_step", "%s step%d mode%d inject%d -> %d err%d", name, i + 1, smode[i], inject[i], r, br_ssl_engine_last_error(ep.eng));
+		if (expect[i] == 0) {
+			if (r != 0 || br_ssl_engine_last_error(ep.eng) != BR_ERR_NO_RANDOM
+				|| br_ssl_engine_current_state(ep.eng) != BR_SSL_CLOSED
+				|| br_ssl_engine_sendrec_buf(ep.eng, &l) != NULL)
+			{
+				snprintf(what, sizeof what, "reset #%d on the same context returned %d, last_error=%d, state=%u although the context never received any randomness",
+					i + 1, r, br_ssl_engine_last_error(ep.eng), br_ssl_engine_current_state(ep.eng));
+				TP_VIOL("handshake-started-without-randomness", what);
+			} else {
+				vf_stat("refused_without_randomness", 1);
+			}
+		} else if (expect[i] == 1) {
+			if (r != 1 || br_ssl_engine_last_error(ep.eng) != 0) {
+				snprintf(what, sizeof what, "reset #%d returned %d, last_error=%d although entropy was injected", i + 1, r, br_ssl_engine_last_error(ep.eng));
+				TP_VIOL("refused-although-seeded", what);
+			} else {
+				vf_stat("started_with_randomness", 1);
+			}
+		} else {
+			vf_stat("seed_sequence_unjudged_steps", 1);
+		}
+	}
+	tp_ep_free(&ep);
+}
+
+static void
+seed_sequences(int role, int dead_mode, const char *tag)
+{
+	char name[80];
+	{
+		int m[4] = { dead_mode, dead_mode, dead_mode, dead_mode }, in[4] = { 0, 0, 0, 0 }, ex[4] = { 0, 0, 0, 0 };
+		snprintf(name, sizeof name, "%s:refused-x4", tag);
+		seed_sequence(role, 4, m, in, ex, name);
+	}
+	{
+		/* refused, refused, then entropy is injected: starts; afterwards the context is seeded */
+		int m[4] = { dead_mode, dead_mode, dead_mode, dead_mode }, in[4] = { 0, 0, 1, 0 }, ex[4] = { 0, 0, 1, -1 };
+		snprintf(name, sizeof name, "%s:refused-refused-inject", tag);
+		seed_sequence(role, 4, m, in, ex, name);
+	}
+	if (dead_mode != 0) {
+		/* alternate the two kinds of dead source */
+		int m[3] = { dead_mode, dead_mode == 2 ? 3 : 2, dead_mode }, in[3] = { 0, 0, 0 }, ex[3] = { 0, 0, 0 };
+		snprintf(name, sizeof name, "%s:refused-other-dead-source", tag);
+		seed_sequence(role, 3, m, in, ex, name);
+	}
+	if (dead_mode != 0) {
+		/* refused, then the source works: either outcome respects the property; then dead again */
+		int m[3] = { dead_mode, 1, dead_mode }, in[3] = { 0, 0, 0 }, ex[3] = { 0, -1, -1 };
+		snprintf(name, sizeof name, "%s:refused-then-working-source", tag);
+		seed_sequence(role, 3, m, in, ex, name);
+	}
+}
+
 /* full handshake where both endpoints have only injected entropy */
 static void
 inject_only_handshake(int seeder_mode)
@@ -275,9 +351,12 @@ main(int argc, char **argv)
 			/* working source */
 			seed_case(role, 1, 0, 1, "fixed-seeder");
 			/* untouched system behaviour of this build */
+			seed_sequences(role, 2, "seeder-fails");
+			seed_sequences(role, 3, "no-seeder");
 			if (noseed_build) {
 				seed_case(role, 0, 0, 0, "build-without-system-seeders");
 				seed_case(role, 0, 1, 1, "build-without-system-seeders+inject");
+				seed_sequences(role, 0, "build-without-system-seeders");
 			} else {
 				seed_case(role, 0, 0, 1, "system-seeder");
 			}
